@@ -59,6 +59,9 @@ _triple = st.one_of(
     st.tuples(_value, _value, _value),
     _value.flatmap(lambda v: st.tuples(st.just(v), _mutations(v), _mutations(v))),
     st.tuples(_scalar, _scalar, _scalar),
+    # prefix-related sequences of different lengths: x = base + [a], y = base, z = base + [b]
+    st.tuples(st.sampled_from(['list', 'tuple']), st.lists(_scalar, max_size=2), _scalar, _scalar, st.permutations([0, 1, 2])).map(
+        lambda t: [[[t[0], t[1] + [t[2]]], [t[0], t[1]], [t[0], t[1] + [t[3]]]][i] for i in t[4]]),
     # same container type and length, so that comparison reaches the values
     st.integers(1, 3).flatmap(lambda n: st.sampled_from(['list', 'tuple']).flatmap(
         lambda tag: st.tuples(*[st.lists(_scalar, min_size=n, max_size=n).map(lambda v, tag=tag: [tag, v]) for _ in range(3)]))),
